@@ -178,21 +178,24 @@ class Rec(doctest.DocTestRunner):
         self.gots.append(('EXC', traceback.format_exception_only(*exc_info[:2])[-1]))
 
 
-def layout(exs, wants, seps, indent, term_style):
+def layout(exs, wants, seps, indent, term_style, ex_inds=None):
+    """ex_inds: blanks each example (its source and its want) is indented by on top of the common margin; the standard
+    module reads every example with the indentation of its own prompt"""
     lines = []
-    for (src, c), w, sep in zip(exs, wants, seps):
-        lines.append('>>> ' + src[0])
+    for i, ((src, c), w, sep) in enumerate(zip(exs, wants, seps)):
+        own = ex_inds[i] if ex_inds else ''
+        lines.append(own + '>>> ' + src[0])
         for s in src[1:]:
-            lines.append('... ' + s)
+            lines.append(own + '... ' + s)
         if len(src) > 1 and term_style:
-            lines.append('...')
+            lines.append(own + '...')
         if w:
-            lines.extend(w)
+            lines.extend(own + x for x in w)
         if sep == 'prose':
             lines += ['', 'Some prose here.', '']
         elif sep == 'blank':
             lines.append('')
-    return '\n'.join(indent + ln if ln else ln for ln in lines) + '\n'
+    return '\n'.join(indent + ln if ln.strip() else '' for ln in lines) + '\n'
 
 
 def run_stdlib(text, recorder=None):
@@ -265,11 +268,38 @@ def text_strategy(D, max_examples=8):
                 a = w[0].replace('a   b    c', 'a b\nc').split('\n')
                 w = a
         wants.append(w)
-    text = layout(exs, wants, seps, indent, term)
-    return {'text': text, 'kinds': [c for _, c in exs]}
+    # most docstrings keep one margin; some indent a run of examples further (an indented 'Typical use:' block, ...)
+    ex_inds, cur = [], ''
+    varied = D.chance(1, 4)
+    for _ in exs:
+        if varied and D.chance(1, 3):
+            cur = D.choice(['', '    ', '  '])
+        ex_inds.append(cur)
+    for i in range(len(exs) - 1):
+        if ex_inds[i] != ex_inds[i + 1] and not wants[i] and seps[i] == 'none' and not D.chance(1, 6):
+            seps[i] = 'blank'        # (mostly kept out of the way of finding F17, so that it does not mask anything else)
+    shapes = set()
+    for i in range(len(exs) - 1):
+        if ex_inds[i] != ex_inds[i + 1]:
+            shapes.add('indent_change_after_{}_{}'.format('sep' if seps[i] != 'none' else ('want' if wants[i] else 'wantless'),
+                                                          'deeper' if len(ex_inds[i + 1]) > len(ex_inds[i]) else 'shallower'))
+    text = layout(exs, wants, seps, indent, term, ex_inds)
+    return {'text': text, 'kinds': [c for _, c in exs], 'shapes': sorted(shapes)}
 
 
 def check_case(case, ctx):
+    try:
+        return _check_case(case, ctx)
+    except Violation as v:
+        odd = [sh for sh in case.get('shapes', []) if sh.startswith('indent_change_after_wantless_')]
+        if odd and not v.key.startswith('indent_change_after_wantless'):
+            # the text holds an example without a want that is directly followed by an example at another indentation: whatever
+            # the symptom (example dropped, prompt line taken for a want, ...), it is reported under that shape (finding F17)
+            raise Violation('indent_change_after_wantless:' + odd[0].rsplit('_', 1)[-1], '[{}] {}'.format(v.key, v.msg), case=getattr(v, 'case', None))
+        raise
+
+
+def _check_case(case, ctx):
     text = case['text']
     res, T1, report, _ = run_stdlib(text)
     if res.failed:
@@ -361,6 +391,8 @@ def _check(case, ctx):
     kinds = case['kinds']
     for c in set(kinds):
         ctx.tag('kind:' + c)
+    for sh in case.get('shapes', []):
+        ctx.tag('shape:' + sh)
     text = case['text']
     if res == 'agree' and len(kinds) >= 3 and any(ln.strip() and not ln.strip().startswith(('>>>', '...')) for ln in text.split('\n')):
         if any(ln.strip().startswith('... ') for ln in text.split('\n')) or 'Traceback' in text or '# doctest:' in text \
